@@ -454,7 +454,8 @@ type readOut struct {
 	pnc     bool
 	trace   []string // Coq events
 	par     bool     // issued concurrently with other reads: oracle only
-	pt      bool     // the merged passthrough file: oracle only
+	pt      bool     // the merged passthrough file
+	model   bool     // pt entry that only feeds the Coq term (the oracle sees the copy in obs.par)
 	mbs     int64
 	workers int
 }
@@ -761,6 +762,9 @@ func execServe(st Store, c Case, tmpRoot string) (obs serveObs) {
 				po.data = b
 			}()
 			obs.par = append(obs.par, po)
+			// also a step of the model history: what the merged file holds (no cache-probe trace is compared for it)
+			obs.coqOps = append(obs.coqOps, fmt.Sprintf("CPt %d %s %s", f, hx.CoqZ(o.Mbs), hx.CoqZ(int64(o.Workers))))
+			obs.outs = append(obs.outs, readOut{isRead: true, f: f, data: po.data, err: po.err, pnc: po.pnc, pt: true, model: true})
 			obs.stats["op.pt"]++
 			if len(obs.files[f].chunks) > 1 {
 				obs.stats["pt.multichunk"]++
